@@ -6,6 +6,7 @@ CONSTANTS
   Mutant = "none"
   Legacy = {}
   WarmPool = FALSE
+  LazyProg = FALSE
 CONSTRAINT Reached
 INVARIANT TNoBad
 INVARIANT TLockOrder
